@@ -10,3 +10,7 @@ export GOFLAGS=-mod=mod GOPROXY=off
 (cd engine && go build -o ../bin/gosym ./cmd/gosym)
 (cd harness && cp /repo/go.sum go.sum 2>/dev/null || true; go build ./...)
 echo "setup ok"
+for m in harness_http harness_chi harness_gin harness_echo harness_fiber; do
+  (cd $m && go build ./... ) || exit 1
+done
+echo "web harness modules ok"
